@@ -2,145 +2,20 @@ package rules
 
 import (
 	"go/ast"
-	"go/token"
-	"go/types"
-	"strings"
 
 	"lachk/core"
 )
 
 func init() {
 	register("C03", "other", "provenance (order/source of the cheater list), T6 WhoMayCall (merged API only), T20 WrapperDelegation, T17 Typestate (fork marker is absorbing)",
-		"Decides the order/source clause of the cheater list and the absorbing fork marker it relies on: the list is built by appends inside one range over the validator set's canonical sorted IDs, from the merged vector clock of the block's Atropos (the consensus package never reads the per-branch clock), entry i of the vector is tested for validator i of that same order, the appended value is that validator, and the list is not reordered before it is put into the block; the adapter and the index delegate the merged query unchanged. Absorbing marker: when a vector collects a parent's vector an entry is overwritten only on the edge where it is not already fork-detected, and a fork-detected source entry always yields a fork-detected entry; when branches are merged, a fork-detected branch determines the merged entry; marking one branch marks all branches of that creator. That the marker is set for exactly the validators with two same-sequence events among the ancestors (vector values over all DAGs) is not decided.",
+		"Decides the order/source clause of the cheater list and the absorbing fork marker it relies on: the list is built by appends inside one iteration that covers every validator in canonical order (a range over the canonical sorted IDs, an indexed loop over them, or a counted loop over the indexes 0..Len()-1, left only at its end), from the merged vector clock of the block's Atropos (the consensus package never reads the per-branch clock), in each iteration the append is reached on and only on the edge where entry i of the vector is fork-detected for validator i of that same order, the appended value is that validator, and the list is not reordered before it is put into the block, which carries that list; the adapter and the index delegate the merged query unchanged. Absorbing marker: when a vector collects a parent's vector an entry is overwritten only on the edge where it is not already fork-detected, and a fork-detected source entry always yields a fork-detected entry; when branches are merged, a fork-detected branch determines the merged entry; marking one branch marks all branches of that creator. That the marker is set for exactly the validators with two same-sequence events among the ancestors (vector values over all DAGs) is not decided.",
 		[]string{"the merged vector has one entry per validator in validator-index order (index = position in the canonical order; C12)", "vector values themselves are C06's subject (not claimed)"},
 		runC03)
 }
 
 func runC03(c *core.Ctx) {
 	p := c.P
-	c.Clause("C03.order", func() {
-		f := c.Fn("abft.Lachesis.applyAtropos")
-		atropos := f.Param(1)
-		// the vector
-		var vec *types.Var
-		for _, a := range assignments(f) {
-			if call, ok := ast.Unparen(a.RHS).(*ast.CallExpr); ok && a.RHS != nil && methodNamed(calleeName(f, call), "GetMergedHighestBefore") && len(call.Args) == 1 && varOf(f, call.Args[0]) == atropos {
-				vec = varOf(f, a.LHS)
-			}
-		}
-		c.Check(vec != nil, "vector is the merged clock of the block's Atropos", "provenance", f.Pos(), "GetMergedHighestBefore(atropos)", "the cheater list is not computed from the Atropos' merged vector clock")
-		// the loop over the validators: a range over the canonical ids, or a counted loop 0..Len()
-		var loop ast.Stmt
-		var ix, val *types.Var
-		isCreator := func(e ast.Expr) bool { return val != nil && varOf(f, e) == val }
-		f.InspectOwn(func(n ast.Node) bool {
-			if loop != nil {
-				return true
-			}
-			switch s := n.(type) {
-			case *ast.RangeStmt:
-				loop = s
-				ix, val = varOf(f, s.Key), varOf(f, s.Value)
-			case *ast.ForStmt:
-				loop = s
-				if as, ok := s.Init.(*ast.AssignStmt); ok && len(as.Lhs) == 1 && len(as.Rhs) == 1 && core.IsConstInt(f.Info(), core.StripConv(f.Info(), as.Rhs[0]), 0) {
-					ix = varOf(f, as.Lhs[0])
-				}
-				okBound := false
-				if ix != nil && s.Cond != nil {
-					lc, k := core.NormLinCmp(f.Info(), core.Fact{Expr: s.Cond, Truth: true}, func(e ast.Expr) string {
-						if varOf(f, e) == ix {
-							return "i"
-						}
-						if call, isC := ast.Unparen(e).(*ast.CallExpr); isC && calleeName(f, call) == "inter/pos.Validators.Len" {
-							return "n"
-						}
-						return ""
-					})
-					okBound = k && lc.Equal(core.ParseLinCmp("i - n + 1 <= 0"))
-				}
-				inc, isInc := s.Post.(*ast.IncDecStmt)
-				okStep := isInc && inc.Tok == token.INC && varOf(f, inc.X) == ix
-				c.Check(okBound && okStep, "counted loop covers every validator index", "T8 (normalised bound)", s.Pos(), "for i := 0; i < validators.Len(); i++", "the loop over validator indexes does not run from 0 to Len()-1 inclusive: the last (or first) validators can never be listed as cheaters")
-				// creator of iteration i: validators.GetID(i) / ids[i]
-				isCreator = func(e ast.Expr) bool {
-					if call, isC := ast.Unparen(e).(*ast.CallExpr); isC && calleeName(f, call) == "inter/pos.Validators.GetID" && len(call.Args) == 1 {
-						return varOf(f, core.StripConv(f.Info(), call.Args[0])) == ix
-					}
-					if ie, isI := ast.Unparen(e).(*ast.IndexExpr); isI {
-						return varOf(f, core.StripConv(f.Info(), ie.Index)) == ix
-					}
-					return false
-				}
-			}
-			return true
-		})
-		c.Need(loop != nil, "applyAtropos loops over the validators")
-		// appends
-		var cheaters *types.Var
-		nApp := 0
-		for _, a := range assignments(f) {
-			ap := isCallTo(f, a.RHS, "builtin.append")
-			if ap == nil || a.RHS == nil {
-				continue
-			}
-			v := varOf(f, a.LHS)
-			if v == nil || varOf(f, ap.Args[0]) != v {
-				continue
-			}
-			if t, ok := v.Type().Underlying().(*types.Slice); !ok || !strings.HasSuffix(t.Elem().String(), "idx.ValidatorID") {
-				continue
-			}
-			cheaters = v
-			nApp++
-			inLoop := enclosingLoop(f, a.Stmt.Pos()) == loop
-			okVal := len(ap.Args) == 2 && isCreator(ap.Args[1])
-			// guarded by vec.Get(idx(i)).IsForkDetected()
-			okG, _ := f.GuardedBy(a.Pt, func(ft core.Fact) bool {
-				if !ft.Truth {
-					return false
-				}
-				call, ok := ast.Unparen(ft.Expr).(*ast.CallExpr)
-				if !ok || !methodNamed(calleeName(f, call), "IsForkDetected") {
-					return false
-				}
-				sel, ok := call.Fun.(*ast.SelectorExpr)
-				if !ok {
-					return false
-				}
-				get, ok := ast.Unparen(sel.X).(*ast.CallExpr)
-				if !ok || !methodNamed(calleeName(f, get), "Get") || len(get.Args) != 1 {
-					return false
-				}
-				gs, ok := get.Fun.(*ast.SelectorExpr)
-				if !ok || varOf(f, gs.X) != vec {
-					return false
-				}
-				return varOf(f, core.StripConv(f.Info(), get.Args[0])) == ix && ix != nil
-			})
-			c.Check(inLoop && okVal && okG, "validator i is listed iff entry i of the merged vector is fork-detected", "provenance + T4", a.Stmt.Pos(), "append(cheaters, creator) inside the canonical-order loop on the vec.Get(i).IsForkDetected() edge", "the cheater list is not built entry-by-entry from the merged vector in canonical order")
-		}
-		c.ExpectAtLeast("cheater appends", nApp, 1)
-		// no reorder: cheaters is only appended to and used in the Block literal
-		okUse := cheaters != nil
-		if cheaters != nil {
-			for _, cs := range f.Calls() {
-				if strings.HasPrefix(cs.Name, "sort.") {
-					for _, a := range cs.Call.Args {
-						if mentionsObj(f, a, cheaters) {
-							okUse = false
-						}
-					}
-				}
-			}
-			for _, a := range assignments(f) {
-				if r, through := ast.Unparen(a.LHS).(*ast.IndexExpr); through && varOf(f, r.X) == cheaters {
-					okUse = false
-				}
-			}
-		}
-		c.Check(okUse, "cheater list is not reordered", "T6", f.Pos(), "the list is only appended to and handed to the block", "the cheater list is sorted or overwritten after it was built")
-	})
+	c03Order(c)
 
 	c.Clause("C03.merged", func() {
 		// abft never reads the per-branch clock
@@ -193,143 +68,5 @@ func runC03(c *core.Ctx) {
 		c.Check(okG, "merged entry i gathers the branches of creator i", "provenance", eg.Pos(), "range BranchIDByCreators: GatherFrom(creatorIdx, scattered, branches)", "the merged vector does not gather each creator's own branches")
 	})
 
-	c.Clause("C03.absorb", func() {
-		cf := c.Fn("vecfc.HighestBeforeSeq.CollectFrom")
-		self := cf.Recv()
-		// my entry / his entry variables
-		var mine, his *types.Var
-		for _, a := range assignments(cf) {
-			call, ok := ast.Unparen(a.RHS).(*ast.CallExpr)
-			if !ok || a.RHS == nil || calleeName(cf, call) != "vecfc.HighestBeforeSeq.Get" {
-				continue
-			}
-			sel := call.Fun.(*ast.SelectorExpr)
-			if varOf(cf, sel.X) == self {
-				mine = varOf(cf, a.LHS)
-			} else {
-				his = varOf(cf, a.LHS)
-			}
-		}
-		c.Need(mine != nil && his != nil, "CollectFrom reads its own and the other entry")
-		forkOf := func(v *types.Var, want bool) func(core.Fact) bool {
-			return func(ft core.Fact) bool {
-				if ft.Truth != want {
-					return false
-				}
-				call, ok := ast.Unparen(ft.Expr).(*ast.CallExpr)
-				if !ok || !methodNamed(calleeName(cf, call), "IsForkDetected") {
-					return false
-				}
-				sel, ok := call.Fun.(*ast.SelectorExpr)
-				return ok && varOf(cf, sel.X) == v
-			}
-		}
-		n := 0
-		for _, cs := range cf.CallsTo("vecfc.HighestBeforeSeq.Set", "vecfc.HighestBeforeSeq.SetForkDetected") {
-			if varOf(cf, cs.Recv()) != self {
-				continue
-			}
-			n++
-			ok, wit := cf.GuardedBy(cs.Pt, forkOf(mine, false))
-			c.Check(ok, "an entry is overwritten only while not fork-detected", "T17 Typestate", cs.Pos(), "every write of self's entry is on the !mySeq.IsForkDetected() edge", "a fork-detected entry can be overwritten by a plain sequence: a cheater visible to a parent disappears from the child's view ("+cf.DescribePath(wit)+")")
-		}
-		c.ExpectAtLeast("entry writes in CollectFrom", n, 3)
-		// his fork => my fork (unless already)
-		edges := edgesWithFact(cf, forkOf(his, true))
-		okF := false
-		for _, e := range edges {
-			// on this edge, within the iteration, SetForkDetected is reached before the loop continues, unless mine is already detected
-			sfd := core.Points(cf.CallsTo("vecfc.HighestBeforeSeq.SetForkDetected"))
-			if len(e.B.Succs[e.Succ].Nodes) > 0 {
-				start := blockEntry(e.B.Succs[e.Succ])
-				isSet := core.PointSet(sfd...)
-				if isSet(start) {
-					okF = true
-					continue
-				}
-				_, miss := core.PathQuery{F: cf, From: start, Avoid: isSet, TargetExit: true}.Find()
-				head, _ := cf.LoopOf(enclosingLoop(cf, posOf(start)))
-				_, again := core.PathQuery{F: cf, From: start, Avoid: isSet, Target: func(pt core.Point) bool { return head != nil && pt.B == head }}.Find()
-				okF = !miss && !again
-			}
-		}
-		// the fork test of the source must not be skipped for fork-only entries (Seq == 0 but fork detected)
-		c.Check(okF && len(edges) >= 1, "a fork-detected source entry makes the entry fork-detected", "T17 Typestate", cf.Pos(), "the hisSeq.IsForkDetected() edge always reaches SetForkDetected in the same iteration", "a fork seen by a parent is not propagated to the child")
-		// GatherFrom: fork-detected branch determines the result
-		gf := c.Fn("vecfc.HighestBeforeSeq.GatherFrom")
-		var acc *types.Var
-		for _, cs := range gf.CallsTo("vecfc.HighestBeforeSeq.Set") {
-			if varOf(gf, cs.Recv()) == gf.Recv() && len(cs.Call.Args) == 2 {
-				acc = varOf(gf, cs.Call.Args[1])
-			}
-		}
-		c.Need(acc != nil, "GatherFrom stores an accumulated entry")
-		var br *types.Var
-		okA := false
-		for _, a := range assignsToVar(gf, acc) {
-			v := varOf(gf, a.RHS)
-			if v == nil {
-				continue
-			}
-			g, _ := gf.GuardedBy(a.Pt, func(ft core.Fact) bool {
-				if !ft.Truth {
-					return false
-				}
-				call, ok := ast.Unparen(ft.Expr).(*ast.CallExpr)
-				if !ok || !methodNamed(calleeName(gf, call), "IsForkDetected") {
-					return false
-				}
-				sel, ok := call.Fun.(*ast.SelectorExpr)
-				return ok && varOf(gf, sel.X) == v
-			})
-			if g {
-				br = v
-				// after this assignment no other assignment of acc is reachable
-				okA = true
-				for _, b := range assignsToVar(gf, acc) {
-					if b.Pt != a.Pt && gf.CanReach(a.Pt, b.Pt) {
-						okA = false
-					}
-				}
-			}
-		}
-		c.Check(okA && br != nil, "a fork-detected branch determines the merged entry", "T17 Typestate", gf.Pos(), "on the branch.IsForkDetected() edge the accumulator takes that branch and is not overwritten afterwards", "a fork-detected branch can be overridden by a later branch when merging: the cheater is not reported")
-		// engine: marking one branch marks all branches of the creator
-		sf := c.Fn("vecengine.Engine.setForkDetected")
-		okM := false
-		for _, cs := range sf.Calls() {
-			if methodNamed(cs.Name, "SetForkDetected") {
-				if rs, isR := enclosingLoop(sf, cs.Pos()).(*ast.RangeStmt); isR {
-					ix, isIx := ast.Unparen(rs.X).(*ast.IndexExpr)
-					if isIx {
-						_, pth := fieldPath(sf, ix.X)
-						okM = len(pth) >= 1 && pth[len(pth)-1] == "vecengine.BranchesInfo.BranchIDByCreators" && varOf(sf, cs.Call.Args[0]) == varOf(sf, rs.Value)
-					}
-				}
-			}
-		}
-		c.Check(okM, "a detected fork marks every branch of the creator", "provenance", sf.Pos(), "range BranchIDByCreators[creator]: SetForkDetected(branch)", "only some branches of a forking creator are marked")
-		// the marker value is recognised by IsForkDetected
-		is := c.Fn("vecfc.BranchSeq.IsForkDetected")
-		st := c.Fn("vecfc.HighestBeforeSeq.SetForkDetected")
-		okV := false
-		for _, cs := range st.CallsTo("vecfc.HighestBeforeSeq.Set") {
-			if v, ok := st.ObjOf(cs.Call.Args[1]).(*types.Var); ok && p.ObjName(v) == "vecfc.forkDetectedSeq" {
-				for _, rp := range is.ReturnPoints() {
-					r := rp.Node().(*ast.ReturnStmt)
-					if len(r.Results) == 1 {
-						if be, isB := ast.Unparen(r.Results[0]).(*ast.BinaryExpr); isB && be.Op == token.EQL {
-							if w, ok := is.ObjOf(be.Y).(*types.Var); ok && p.ObjName(w) == "vecfc.forkDetectedSeq" {
-								okV = true
-							}
-							if w, ok := is.ObjOf(be.X).(*types.Var); ok && p.ObjName(w) == "vecfc.forkDetectedSeq" {
-								okV = true
-							}
-						}
-					}
-				}
-			}
-		}
-		c.Check(okV, "writer and reader of the fork marker agree", "T14 CodecPair", st.Pos(), "SetForkDetected stores forkDetectedSeq and IsForkDetected compares with it", "the fork marker written is not the one tested")
-	})
+	c03Absorb(c)
 }
